@@ -24,6 +24,9 @@ R2 (K6) mapping.py: escape_file_id's replace() pairs, in order, are inverted by 
 R3 (K6/K10) URL segment-parameter keys written by urls.py:git_url_to_bzr_url equal the keys read by
    crates/git/src/lib.rs:bzr_url_to_git_url, and the (url, branch, ref) result order matches what
    git/branch.py:GitBranch.set_parent unpacks.
+Added while testing against seeded changes: Also: URL parameter values percent-encoded by the writer are decoded by
+the Rust reader; set_parent and get_parent use the same git config entries (section roles: remote resolver, branch
+name).
 Does not decide: quoting of arbitrary bytes (urlutils), sha <-> revision-id mapping arithmetic.
 """
 
